@@ -476,6 +476,20 @@ theorem C18_dates_injective (t u : Nat) (ht : t < Poor.Date.T_MAX) (hu : u < Poo
 theorem C18_dates_width (t : Nat) (h : t < Poor.Date.T_MAX) : (Poor.Date.timeToHttp t).length = 29 :=
   Poor.Date.timeToHttp_length t h
 
+/-- `_ord2ymd` and `_ymd2ord` are inverse in both directions: the calendar model is a bijection between
+    ordinals and dates of the calendar -/
+theorem C18_calendar_bijection :
+    (∀ ord, 1 ≤ ord → Poor.Date.ymd2ord (Poor.Date.ord2ymd ord).1 (Poor.Date.ord2ymd ord).2.1
+        (Poor.Date.ord2ymd ord).2.2 = ord) ∧
+    (∀ y m d, Poor.Date.ValidDate y m d → Poor.Date.ord2ymd (Poor.Date.ymd2ord y m d) = (y, m, d)) :=
+  ⟨Poor.Date.ord_roundtrip, Poor.Date.ymd_roundtrip⟩
+
+/-- **parsing is sound**: whatever `http_to_time` accepts (canonical shape) is the rendering of the
+    second it returns, except possibly for the day name, which is not cross-checked -/
+theorem C18_dates_parse_sound (s : Str) (t : Nat) (h : Poor.Date.httpToTime s = .ok t) :
+    ∃ w, w < 7 ∧ s = Poor.Date.render (Poor.Date.civilW t w) :=
+  Poor.Date.parse_sound s t h
+
 /-- non-vacuity: the leap day of 2000, and the last second covered -/
 example : String.ofList (Poor.Date.timeToHttp 951782400) = "Tue, 29 Feb 2000 00:00:00 GMT" := by decide +kernel
 example : String.ofList (Poor.Date.timeToHttp 253402300799) = "Fri, 31 Dec 9999 23:59:59 GMT" := by decide +kernel
